@@ -6,23 +6,27 @@ import (
 )
 
 // C02 - handler errors reach the client with code, message and metadata.
+// Full stack: real NewUnaryHandler/NewServerStreamHandler <- stub transport
+// <- real NewClient, for Connect, gRPC and gRPC-Web.
 
-// HarnessC02UnaryError: a unary handler returns an error with a symbolic code
-// in 1..16 and a symbolic message; the real client (all three protocols)
-// must observe the same code and message, never success.
-//
-//verif:harness property=C02 stubs=json,wire
-func HarnessC02UnaryError() {
-	proto := nondetChoice("proto", 3)
-	code := Code(nondetUint32("code"))
-	assume(code >= 1 && code <= 16)
-	msg := nondetString("message", bound("msgLen", 2, 3))
+func c02CheckError(err error, code Code, msg string, metaKey, metaVal string) {
+	ce, ok := asError(err)
+	check(ok, "the client error is a *connect.Error")
+	if !ok {
+		return
+	}
+	check(ce.Code() == code, "the client observes the code the handler returned")
+	check(ce.Message() == msg, "the client observes the message the handler returned, byte for byte")
+	if metaKey != "" {
+		check(ce.Meta().Get(metaKey) == metaVal, "error metadata reaches the client")
+	}
+}
+
+func c02UnaryCall(proto int, herr error) (*stackTransport, error) {
 	handler := NewUnaryHandler(
 		"/pkg.Svc/Method",
 		func(ctx context.Context, req *Request[[]byte]) (*Response[[]byte], error) {
-			e := NewError(code, errors.New(msg))
-			e.Meta().Set("X-Err-Meta", "m1")
-			return nil, e
+			return nil, herr
 		},
 		stackHandlerOptions()...,
 	)
@@ -31,21 +35,112 @@ func HarnessC02UnaryError() {
 	in := []byte{1}
 	res, err := client.CallUnary(context.Background(), NewRequest(&in))
 	check(err != nil && res == nil, "an error returned by the handler is never delivered as success")
-	if err == nil {
-		return
-	}
-	ce, ok := asError(err)
-	check(ok, "the client error is a *connect.Error")
-	if !ok {
-		return
-	}
-	check(ce.Code() == code, "the client observes the code the handler returned")
-	check(ce.Message() == msg, "the client observes the message the handler returned, byte for byte")
-	check(ce.Meta().Get("X-Err-Meta") == "m1", "error metadata reaches the client")
+	return tr, err
+}
+
+func c02CheckStatus(proto int, tr *stackTransport, code Code) {
 	if proto == 0 {
 		check(tr.rec.status < 200 || tr.rec.status > 299, "a failed unary Connect call has a non-2xx HTTP status")
 		check(tr.rec.status == connectCodeToHTTP(code), "the HTTP status is the one assigned to the code")
 	} else {
 		check(tr.rec.status == 200, "gRPC and gRPC-Web responses are HTTP 200")
 	}
+}
+
+// HarnessC02UnaryCode: every code 1..16 (one symbolic value) survives the
+// unary error path of each protocol, with metadata.
+//
+//verif:harness property=C02 stubs=json,wire shard=proto:3
+func HarnessC02UnaryCode() {
+	proto := nondetChoice("proto", 3)
+	code := Code(nondetUint32("code"))
+	assume(code >= 1 && code <= 16)
+	e := NewError(code, errors.New("boom %1"))
+	e.Meta().Set("X-Err-Meta", "m1")
+	tr, err := c02UnaryCall(proto, e)
+	if err == nil {
+		return
+	}
+	c02CheckError(err, code, "boom %1", "X-Err-Meta", "m1")
+	c02CheckStatus(proto, tr, code)
+}
+
+// HarnessC02UnaryMessage: every message (all byte values up to the bound:
+// NUL, control characters, '%', CR/LF, blanks, non-ASCII) survives.
+//
+//verif:harness property=C02 stubs=json,wire shard=proto:3
+func HarnessC02UnaryMessage() {
+	proto := nondetChoice("proto", 3)
+	msg := nondetString("message", bound("msgLen", 2, 3))
+	e := NewError(CodeResourceExhausted, errors.New(msg))
+	tr, err := c02UnaryCall(proto, e)
+	if err == nil {
+		return
+	}
+	c02CheckError(err, CodeResourceExhausted, msg, "", "")
+	c02CheckStatus(proto, tr, CodeResourceExhausted)
+}
+
+// HarnessC02Uncoded: a plain Go error arrives as code unknown with its text.
+//
+//verif:harness property=C02 stubs=json,wire shard=proto:3
+func HarnessC02Uncoded() {
+	proto := nondetChoice("proto", 3)
+	msg := nondetString("message", bound("msgLen", 2, 2))
+	_, err := c02UnaryCall(proto, errors.New(msg))
+	if err == nil {
+		return
+	}
+	c02CheckError(err, CodeUnknown, msg, "", "")
+}
+
+// HarnessC02StreamError: a server-streaming handler sends k messages and then
+// fails; the client receives the k messages and then exactly that error,
+// whether or not response messages were already sent.
+//
+//verif:harness property=C02 stubs=json,wire shard=proto:3
+func HarnessC02StreamError() {
+	proto := nondetChoice("proto", 3)
+	k := nondetChoice("sent", bound("sent", 2, 3))
+	code := Code(nondetUint32("code"))
+	assume(code >= 1 && code <= 16)
+	handler := NewServerStreamHandler(
+		"/pkg.Svc/Method",
+		func(ctx context.Context, req *Request[[]byte], stream *ServerStream[[]byte]) error {
+			for i := 0; i < k; i++ {
+				m := []byte{byte(0x30 + i)}
+				if err := stream.Send(&m); err != nil {
+					return err
+				}
+			}
+			e := NewError(code, errors.New("late"))
+			e.Meta().Set("X-Err-Meta", "m2")
+			return e
+		},
+		stackHandlerOptions()...,
+	)
+	tr := &stackTransport{handler: handler}
+	client := NewClient[[]byte, []byte](tr, stackURL, stackClientOptions(proto)...)
+	in := []byte{1}
+	stream, err := client.CallServerStream(context.Background(), NewRequest(&in))
+	check(err == nil, "starting the stream succeeds")
+	if err != nil {
+		return
+	}
+	got := 0
+	for stream.Receive() {
+		check(got < k && len(*stream.Msg()) == 1 && (*stream.Msg())[0] == byte(0x30+got), "messages sent before the error arrive intact and in order")
+		got++
+		if got > k+1 {
+			break
+		}
+	}
+	check(got == k, "all messages sent before the error are delivered")
+	serr := stream.Err()
+	check(serr != nil, "an error returned after sending messages is never delivered as success")
+	if serr != nil {
+		c02CheckError(serr, code, "late", "X-Err-Meta", "m2")
+	}
+	check(tr.rec.status == 200, "streaming responses are HTTP 200")
+	_ = stream.Close()
 }
